@@ -346,15 +346,18 @@ func TestCheck(t *testing.T) {
 	// A chunked body ends with its terminator: a reader that has reported the end must keep reporting it and must
 	// not touch what follows on the stream (the next frame, or another body).
 	for _, sz := range []int{0, 1, 5, 65535, 65536} {
-		for _, follow := range []string{"frame", "body", "zeros"} {
+		for _, follow := range []string{"frame", "body", "zeros", "frame-after-second-close"} {
 			payload := bytes.Repeat([]byte{0xA5}, sz)
 			var body bytes.Buffer
 			w := litefs.VerifChunkWriter(&body)
 			_, _ = w.Write(payload)
 			_ = w.Close()
+			if follow == "frame-after-second-close" {
+				_ = w.Close() // an explicit Close for the error and a deferred one for the clean-up: one terminator on the wire
+			}
 			var next []byte
 			switch follow {
-			case "frame":
+			case "frame", "frame-after-second-close":
 				var fb bytes.Buffer
 				_ = litefs.WriteStreamFrame(&fb, &litefs.HeartbeatStreamFrame{Timestamp: 0x0102030405060708})
 				next = fb.Bytes()
